@@ -454,8 +454,9 @@ func parseMailbox(m string, f Flags, v *verdicts) []string {
 		return nil
 	}
 	if !strictDomain(dom) {
-		if f.UTF8 && utf8.ValidString(dom) && !strings.ContainsAny(dom, "@\\\"()<>[],;:") && hasNonASCII(dom) {
-			// U-label domain under SMTPUTF8: fine
+		if f.UTF8 && utf8.ValidString(dom) && !strings.ContainsAny(dom, "@\\\"()<>[],;:") && hasNonASCII(dom) && !hasControl(dom) {
+			// U-label domain under SMTPUTF8: fine (control characters and
+			// DEL are not text: lenient at best)
 		} else {
 			v.unsp("lenient domain syntax")
 		}
@@ -464,6 +465,15 @@ func parseMailbox(m string, f Flags, v *verdicts) []string {
 		return []string{local + "@" + dom, unq + "@" + dom}
 	}
 	return []string{local + "@" + dom}
+}
+
+func hasControl(s string) bool {
+	for i := 0; i < len(s); i++ {
+		if s[i] < 0x20 || s[i] == 0x7f {
+			return true
+		}
+	}
+	return false
 }
 
 func hasNonASCII(s string) bool {
